@@ -36,6 +36,9 @@ ASSUMPTIONS = [
     "layout values have at most two decimals (printing is lossless)",
     "WebVTT arithmetic is judged for layouts that have an origin (the quantified domain)",
     "in the cue-splitting leg every text node of a caption carries an explicit layout",
+    "two adjacent nodes whose layouts differ only in 'no alignment' versus 'an Alignment with "
+    "neither half set' may be written as one cue or as two (the property does not say whether "
+    "those are different layouts); the settings of every written cue are judged either way",
     "with fit_to_screen on, an extent that overflows the safe area is only required to end inside it",
 ]
 
@@ -451,21 +454,34 @@ def check_webvtt(case, rec):
     except P.RefParseError as e:
         raise Violation(f"webvtt output not well-formed: {e}: {out[:400]!r}")
     # expected cue list
-    exp = []
-    for cue in lang["cues"]:
-        groups = []
-        for n in cue["nodes"]:
-            if "t" not in n:
-                continue
-            L = n.get("layout")
-            key = _canon(L, defaults=False) if L else None
-            if groups and groups[-1][0] == key:
-                groups[-1][2].append(n["t"])
-            else:
-                groups.append([key, L, [n["t"]]])
-        for key, L, texts in groups:
-            eff = L or cue.get("layout") or lang.get("layout")
-            exp.append((cue["start"], cue["end"], eff, texts))
+    def expected(strict):
+        # strict: a layout whose alignment is absent and one whose Alignment has neither half
+        # set are different layouts (they compare unequal); loose: they are the same.  The
+        # property does not say which, so both groupings are accepted.
+        exp = []
+        for cue in lang["cues"]:
+            groups = []
+            for n in cue["nodes"]:
+                if "t" not in n:
+                    continue
+                L = n.get("layout")
+                key = _canon(L, defaults=False) if L else None
+                if strict and L:
+                    key = (key, L.get("align") is None)
+                if groups and groups[-1][0] == key:
+                    groups[-1][2].append(n["t"])
+                else:
+                    groups.append([key, L, [n["t"]]])
+            for key, L, texts in groups:
+                eff = L or cue.get("layout") or lang.get("layout")
+                exp.append((cue["start"], cue["end"], eff, texts))
+        return exp
+    exp = expected(False)
+    if len(cues) != len(exp):
+        alt = expected(True)
+        if len(alt) == len(cues):
+            exp = alt
+            rec.label("absent-vs-empty-alignment-split")
     require(len(cues) == len(exp), lambda: f"webvtt: {len(cues)} cues written, expected {len(exp)} (one per layout group): {out[:600]!r}")
     distinct = set()
     for i, (c, (a, b, L, texts)) in enumerate(zip(cues, exp)):
